@@ -70,9 +70,16 @@ Section Model.
     let acc := fold_left (fun a r => map (fun '(x, y) => x + y) (combine a r)) rows (map (fun _ => zero O) (diffs edges)) in
     map (fun x => x / ofnat (2 * n + 1)) acc.
 
+  (* perfect resolution: weight one on the FIRST entry of q_calc equal to the data q (merged data repeat q values) *)
+  Fixpoint first_match (q_calc : list T) (qi : T) : list T :=
+    match q_calc with
+    | [] => []
+    | qc :: r => if eqb O qc qi then one O :: map (fun _ => zero O) r else zero O :: first_match r qi
+    end.
+
   Definition slit_column (q_calc : list T) (qi w l : T) (n : nat) : list T :=
     let edges := bin_edges q_calc in
-    if eqb O w (zero O) && eqb O l (zero O) then map (fun qc => if eqb O qc qi then one O else zero O) q_calc
+    if eqb O w (zero O) && eqb O l (zero O) then first_match q_calc qi
     else if eqb O l (zero O) then perp_weights edges qi w
     else if eqb O w (zero O) then par_weights q_calc edges qi l
     else mixed_weights edges qi w l n.
